@@ -164,6 +164,9 @@ func (ci *cindex) onWrite(src string, firstRec, lastRec uint32, rInfo RecordsInf
 	}
 
 	last := sc[len(sc)-1]
+	// a notification which arrives late (concurrent writers): the index has been told about its records already
+	// (by a later notification or by a rebuild which scanned them), so it must leave the index tree alone
+	late := lastRec+1 <= last.Recs
 	if last.Recs < lastRec+1 {
 		// a notification which arrives late (concurrent writers) does not take records back
 		last.Recs = lastRec + 1
@@ -188,7 +191,7 @@ func (ci *cindex) onWrite(src string, firstRec, lastRec uint32, rInfo RecordsInf
 		return ErrTmIndexCorrupted
 	}
 
-	if last.lastRec > 0 && (lastRec <= last.lastRec || lastRec-last.lastRec < sparseSpace) {
+	if late || (last.lastRec > 0 && (lastRec <= last.lastRec || lastRec-last.lastRec < sparseSpace)) {
 		// no need to write, give it a space so far; the records of a notification which arrives late (concurrent
 		// writers) lie in front of the last indexed record: the intervals written already span them
 		last.rwLock.Unlock()
@@ -427,7 +430,7 @@ func (ci *cindex) rebuildIndex(ctx context.Context, src string, chk chunk.Chunk,
 		res.makeCorrupted()
 	}
 
-	rInfo, root, err := ci.rebuildIndexInt(ctx, chk)
+	rInfo, root, scanned, err := ci.rebuildIndexInt(ctx, chk)
 	if err != nil {
 		res.rwLock.Unlock()
 		return
@@ -446,6 +449,11 @@ func (ci *cindex) rebuildIndex(ctx context.Context, src string, chk chunk.Chunk,
 			if c == res {
 				found = true
 				res.update(rInfo)
+				if res.Recs < scanned {
+					// the hull accounts for every record the rebuild has read: their notifications, if still
+					// on the way, are late
+					res.Recs = scanned
+				}
 				break
 			}
 		}
@@ -475,10 +483,11 @@ func (ci *cindex) writeIndexInterval(root Item, ri RecordsInfo, pos0, pos1 int) 
 
 // rebuildIndexInt allows to check the chunk's records from the chunk remembering
 // their time points and positions in the time index.
-func (ci *cindex) rebuildIndexInt(ctx context.Context, chk chunk.Chunk) (RecordsInfo, Item, error) {
+func (ci *cindex) rebuildIndexInt(ctx context.Context, chk chunk.Chunk) (RecordsInfo, Item, uint32, error) {
 	var rInfo, segmInfo RecordsInfo
 	var root Item
 	var err error
+	pos1 := 0
 
 	rInfo.Id = chk.Id()
 
@@ -487,28 +496,27 @@ func (ci *cindex) rebuildIndexInt(ctx context.Context, chk chunk.Chunk) (Records
 		it, err = chk.Iterator()
 		if err != nil {
 			ci.logger.Error("rebuildIndexInt(): could not create iterator, err=", err)
-			return rInfo, root, err
+			return rInfo, root, 0, err
 		}
 		defer it.Close()
 
 		ts, err := getRecordTimestamp(ctx, it)
 		if err != nil {
 			ci.logger.Error("rebuildIndexInt(): could not read first record, err=", err)
-			return rInfo, root, err
+			return rInfo, root, 0, err
 		}
 
 		intv := interval{record{ts, uint32(0)}, record{ts, uint32(0)}}
 		root, err = ci.cc.arrangeRoot(intv)
 		if err != nil {
 			ci.logger.Warn("rebuildIndexInt(): could not create root element for ", rInfo, ", err=", err)
-			return rInfo, root, err
+			return rInfo, root, 0, err
 		}
 		rInfo.MaxTs = ts
 		rInfo.MinTs = ts
 		segmInfo = RecordsInfo{MinTs: math.MaxInt64, MaxTs: math.MinInt64}
 
 		pos0 := 0
-		pos1 := 0
 		for err == nil {
 			ts, err = getRecordTimestamp(ctx, it)
 			if err == io.EOF {
@@ -519,7 +527,7 @@ func (ci *cindex) rebuildIndexInt(ctx context.Context, chk chunk.Chunk) (Records
 			if err != nil {
 				ci.cc.removeItem(root)
 				ci.logger.Error("rebuildIndexInt(): could not read next record, err=", err)
-				return rInfo, root, err
+				return rInfo, root, 0, err
 			}
 			it.Next(ctx)
 
@@ -538,7 +546,7 @@ func (ci *cindex) rebuildIndexInt(ctx context.Context, chk chunk.Chunk) (Records
 		ci.logger.Info("rebuildIndex(): the chunk ", chk, " has 0 size")
 	}
 
-	return rInfo, root, err
+	return rInfo, root, uint32(pos1), err
 }
 
 // readData reads all index data and returns it as a slice []IdxRecord
